@@ -539,6 +539,32 @@ class Run:
                                 "avail": avail, "capacity": cap})
             return r
 
+        from workload import Workload
+
+        self._orig["offer"] = Workload.get_schedulable_tasks
+
+        def offer(wl, time, lookahead=None, preemption=False, retract_schedules=False, worker_pools=None, *a, **kw):
+            r = run._orig["offer"](wl, time, *([] if lookahead is None else [lookahead]), preemption, retract_schedules, worker_pools, *a, **kw) if lookahead is not None else run._orig["offer"](wl, time, preemption=preemption, retract_schedules=retract_schedules, worker_pools=worker_pools, *a, **kw)
+            if wl is run.sim._workload:
+                rtg = a[2] if len(a) > 2 else kw.get("release_taskgraphs", False)
+                offered = []
+                ids = set()
+                for t in r:
+                    ids.add(t.id)
+                    tg = wl.get_task_graph(t.task_graph)
+                    offered.append({"t": run.label(t), "state": t.state.name, "terminal": bool(t.terminal),
+                                    "parents": [] if tg is None else [(run.label(q), q.state.name) for q in tg.get_parents(t)]})
+                horizon = us(time) + (0 if lookahead is None else us(lookahead))
+                starved = [run.label(t) for tg in wl.task_graphs.values() for t in tg.get_nodes()
+                           if t.state == TaskState.RELEASED and us(t.release_time) <= horizon and t.id not in ids]
+                zero = any(t.state in (TaskState.RUNNING, TaskState.RELEASED, TaskState.SCHEDULED) and t.remaining_time is not None and us(t.remaining_time) <= 0
+                           for tg in wl.task_graphs.values() for t in tg.get_nodes())
+                run.mon.append({"ev": "offer", "time": us(time), "lookahead": 0 if lookahead is None else us(lookahead), "rtg": bool(rtg),
+                                "retract": bool(retract_schedules), "preemption": bool(preemption), "offered": offered, "starved": starved,
+                                "zero_remaining_live_task": zero, "in_policy": run.in_policy})
+            return r
+
+        Workload.get_schedulable_tasks = offer
         Task.start, Task.finish, Task.release = start, finish, release
         ww.Worker.place_task, ww.Worker.remove_task = place, remove
 
@@ -546,6 +572,9 @@ class Run:
         import workers.workers as ww
         from workload import Task
 
+        from workload import Workload
+
+        Workload.get_schedulable_tasks = self._orig["offer"]
         Task.start, Task.finish, Task.release = self._orig["start"], self._orig["finish"], self._orig["release"]
         ww.Worker.place_task, ww.Worker.remove_task = self._orig["place"], self._orig["remove"]
 
